@@ -405,12 +405,18 @@ def semantic(spec, out):
         try:
             root = os.path.join(d, "x.hdd")
             os.mkdir(root)
-            fname = "x.hds"
-            with open(os.path.join(root, fname), "wb") as f:
-                f.write(base_hds(2))
+            # a snapshot chain of 1..3 images; the unsupported Type sits on the base, a middle or the top image
+            depth = 1 + n % 3
+            bad_at = (n // 3) % depth
+            guids = [f"1a2b3c4d-0000-4000-8000-00000000000{i}" for i in range(depth - 1)] + [bhdd.DEFAULT_TOP]
+            for g in guids:
+                with open(os.path.join(root, f"x.{g}.hds"), "wb") as f:
+                    f.write(base_hds(2))
+            out.cls(f"hdd-chain-depth={depth}", "bad-image=" + ("top" if bad_at == depth - 1 else "base" if bad_at == 0 else "middle"))
             def desc(t):
-                return bhdd.descriptor_xml({"disk_size": 24, "storages": [{"start": 0, "end": 24, "images": [{"guid": bhdd.DEFAULT_TOP, "type": t, "file": fname}]}],
-                                            "shots": [{"guid": bhdd.DEFAULT_TOP, "parent": bhdd.NULL_GUID}]})
+                images = [{"guid": g, "type": t if i == bad_at else "Compressed", "file": f"x.{g}.hds"} for i, g in enumerate(guids)]
+                shots = [{"guid": g, "parent": guids[i - 1] if i else bhdd.NULL_GUID} for i, g in enumerate(guids)]
+                return bhdd.descriptor_xml({"disk_size": 24, "storages": [{"start": 0, "end": 24, "images": images}], "shots": shots})
             with open(os.path.join(root, "DiskDescriptor.xml"), "w") as f:
                 f.write(desc("Compressed"))
             ctl = lib(lambda: HDD(Path(root)).open())[1]
